@@ -114,9 +114,13 @@ func applyJSON(doc document.Document, entry interface{}) (result document.Docume
 		return nil, err
 	}
 
-	docBytes, err = jsonPatches.Apply(docBytes)
-	if err != nil {
-		return nil, err
+	// the operations are applied one at a time, each on the re-serialized result of the previous one: the library's
+	// copy shares the copied value, so a later operation could otherwise copy a value into what is (by reference) itself
+	for i := range jsonPatches {
+		docBytes, err = jsonPatches[i : i+1].Apply(docBytes)
+		if err != nil {
+			return nil, err
+		}
 	}
 
 	return document.FromBytes(docBytes)
